@@ -3,6 +3,7 @@ package main
 import (
 	"fmt"
 	"math"
+	"math/big"
 	"math/rand"
 	"regexp"
 	"sort"
@@ -284,6 +285,15 @@ func exprS(e logql.Expr) Sexp {
 }
 
 func normDec(a Sexp) Sexp {
+	if a.IsL && a.Head() == "q" && len(a.List) == 3 {
+		// the model's exact rational
+		r, ok := new(big.Rat).SetString(a.List[1].Atom + "/" + a.List[2].Atom)
+		if !ok {
+			return a
+		}
+		f, _ := r.Float64()
+		return decS(f)
+	}
 	if a.IsL || !strings.HasPrefix(a.Atom, "x") {
 		return a
 	}
